@@ -1153,15 +1153,16 @@ const c19Rule = "codec: random variant value trees (21 primitive kinds with boun
 	"insertion-ordered value text; non-trivial = container, string, binary or decimal (or any malformed input). " +
 	"shredding: random shredding schemas (none/primitive/list/object, depth <= 3, 19 leaf types) x rows aimed at the schema " +
 	"(matches, type mismatches, residual and missing fields, decimals around the precision bound) x 6 write paths, each file " +
-	"read through 4 read paths; the same with the variant column below repeated / repeated-repeated / optional / optional-repeated " +
-	"ancestors (several occurrences per row, LIST and object-with-LIST typed_value, first occurrence an array of >= 2 elements, " +
+	"read through 4 read paths; the same with the variant column below repeated / repeated-repeated / optional / optional-repeated / repeated-optional " +
+	"ancestors (several occurrences per row, null occurrences between them, LIST and object-with-LIST typed_value, first occurrence an array of >= 2 elements, " +
 	"with and without null/empty ancestors; 5 write x 4 read paths); every top-level file also read through the columnar " +
-	"VariantReader and through 4 evolved reader schemas (columns added before/between/after the variant, id dropped); larger files with " +
+	"VariantReader (rows rebuilt from the shredded cursors, and every path occurring in the values - in the shredding schema or not - " +
+	"plus an absent name navigated by Field/Elements, with only those cursors projected and with the whole tree projected) and through 4 evolved reader schemas (columns added before/between/after the variant, id dropped); larger files with " +
 	"dictionary-encoded typed_value leaves, small DictionaryMaxBytes/PageBufferSize, several row groups, page v1/v2 read through " +
 	"VariantReader with 3 window sizes; the (definition level, repetition level, value) cells of every leaf column of these files " +
 	"compared with the level mirror; foreign-style files written cell by cell (raw parquet.Row values from the level mirror) with " +
 	"16-byte DECIMAL typed_value leaves laid out as minimal-length / sign-padded BYTE_ARRAY or FIXED_LEN_BYTE_ARRAY(n <= 16) " +
-	"(values of 1..16 significant bytes whose sign and low-byte top bit are independent), top-level and below the 4 ancestor shapes, " +
+	"(values of 1..16 significant bytes whose sign and low-byte top bit are independent), top-level and below the 5 ancestor shapes, " +
 	"read through every read path; distinct by schema + write path + row texts; " +
 	"non-trivial = the column has a typed_value or sits below an optional/repeated ancestor"
 
